@@ -58,8 +58,8 @@ CHECKS = {
          "DESIGN.md section 4, C10"),
 
  "C07": ("deviation-bounded exhaustive enumeration of argument vectors per public call (0..d deviations from nominal over per-parameter boundary alphabets) and of call sequences, executed in watchdog-supervised child processes",
-         "For fill, stroke, fill_rect, mask, draw_image_at / with_size, copy/blend_surface, flatten / contains_point / transform and clear: every argument vector with at most 3 (quick) / 4 (thorough) deviations from nominal over the boundary values named in the property (surface sizes incl. 0, 15 transforms incl. singular / tiny / huge, 43 paths incl. +-3999.75 px, empty, degenerate and curved ones, 29 sources incl. degenerate gradients, 28 modes, alpha/opacity NaN / -inf / 2 / 256 / inf, 9 widths, 15 dash arrays x 9 offsets, clip rectangles empty / inverted / +-2^20, layers under empty clips, ...) restricted to the stated domain; plus all call sequences of length <= 4 / 5 over a 35-call alphabet. No unwind, no abort, no allocation failure, return within the horizon, rasteriser idle after every call; overflow checks and debug assertions are on in raqote and every dependency.",
-         "Children run under ulimit -v 8 GB with a 5 s per-case horizon; domain filters are stated in the evidence assumptions; the dependency's non-separable blend overflow is a listed known finding; i32 extremes for block transfers, 130 coincident contours, hairpins and 650 px pens are in the alphabets.",
+         "For fill, stroke, fill_rect, mask, draw_image_at / with_size, copy/blend_surface, flatten / contains_point / transform and clear: every argument vector with at most 3 (quick) / 4 (thorough) deviations from nominal over the boundary values named in the property (surface sizes incl. 0, 18 transforms incl. singular / tiny / huge / one-axis stretches of 1e8, 46 paths incl. +-3999.75 px, empty, degenerate and curved ones, 29 sources incl. degenerate gradients, 28 modes, alpha/opacity NaN / -inf / 2 / 256 / inf, 9 widths, 15 dash arrays x 9 offsets, clip rectangles empty / inverted / +-2^20, layers under empty clips, ...) restricted to the stated domain; plus all call sequences of length <= 4 / 5 over a 37-call alphabet. No unwind, no abort, no allocation failure, return within the horizon, rasteriser idle after every call; overflow checks and debug assertions are on in raqote and every dependency.",
+         "Children run under ulimit -v 8 GB with a 60 s (CPU time) per-case horizon; domain filters are stated in the evidence assumptions; the dependency's non-separable blend overflow is a listed known finding; i32 extremes for block transfers, 130 coincident contours, hairpins and 650 px pens are in the alphabets.",
          "DESIGN.md section 4, C07"),
  "C18": ("bounded exhaustive enumeration of scenes with valid premultiplied inputs; invariant r,g,b <= a evaluated on every buffer after every call",
          "The C03 scene space extended with non-constant gradients and filtered images, all 28 x 28 ordered blend-mode pairs in two consecutive draws (the output of one is the destination of the next), layer scenes with every layer blend x every inner mode, nested layers, and the Color / from_unpremultiplied_argb conversions over 17^4 channel tuples: after every call every pixel of the surface and of every open layer satisfies r,g,b <= a.",
